@@ -157,6 +157,31 @@ def _cache_case(c):
     return fails, [len(seq)]
 
 
+def _objreuse_case(c):
+    """ONE ExtrapolationGrid / BalancedExtrapolationGrid object receives a sequence of trees; weights must equal a fresh object's"""
+    from sparseSpACE.Extrapolation import ExtrapolationGrid, BalancedExtrapolationGrid, SliceGrouping, SliceVersion, SliceContainerVersion
+    fails = []
+    variants = [("balanced", None)] if c["balanced"] else [(sg, fb) for sg in SliceGrouping for fb in (False, True)]
+    for sg, fb in variants:
+        key = {"grid": "balanced" if c["balanced"] else "ExtrapolationGrid", "oracle_kind": "object_reuse"}
+        make = (lambda: BalancedExtrapolationGrid()) if c["balanced"] else (lambda: ExtrapolationGrid(slice_grouping=sg, slice_version=SliceVersion.ROMBERG_DEFAULT,
+                                                                                                       container_version=SliceContainerVersion.ROMBERG_DEFAULT,
+                                                                                                       force_balanced_refinement_tree=fb))
+        g = make()
+        for step, (pts, lv) in enumerate(c["sequence"]):
+            g.set_grid(list(pts), list(lv))
+            w1 = [float(x) for x in g.get_weights()]
+            G1 = [float(x) for x in g.get_grid()]
+            f = make()
+            f.set_grid(list(pts), list(lv))
+            w2 = [float(x) for x in f.get_weights()]
+            G2 = [float(x) for x in f.get_grid()]
+            if G1 != G2 or len(w1) != len(w2) or any(abs(x - y) > 1e-13 for x, y in zip(w1, w2)):
+                fails.append(fail("reused_object_weights", "variant %r step %d points %r after %r: weights %r, fresh object %r" % ((str(sg), fb), step, pts, [t[0] for t in c["sequence"][:step]], w1[:5], w2[:5]), key))
+                return fails, [step]
+    return fails, [len(c["sequence"])]
+
+
 def _cache2d_case(c):
     """one cached GlobalRombergGrid object on an anisotropic 2D domain: each dimension must get the weights of ITS interval"""
     from sparseSpACE.Grid import GlobalRombergGrid
@@ -230,7 +255,7 @@ def _tree_ops_case(c):
 
 def run_case(case):
     c = case["config"]
-    fails, out = {"ext": _ext_case, "balanced": _balanced_case, "cache": _cache_case, "cache2d": _cache2d_case, "treeops": _tree_ops_case}[c["kind"]](c)
+    fails, out = {"ext": _ext_case, "balanced": _balanced_case, "cache": _cache_case, "cache2d": _cache2d_case, "objreuse": _objreuse_case, "treeops": _tree_ops_case}[c["kind"]](c)
     return {"failures": fails, "canon": core.config_key(c), "outcome": tuple(out), "nontrivial": True, "evals": max(1, len(out))}
 
 
@@ -247,6 +272,16 @@ def cases(tier):
     for t0 in small:
         for t1 in small:
             out.append({"config": {"kind": "cache", "a": 0.0, "b": 1.0, "trees": [list(t0), list(t1)]}})
+    fam = trees.tree_family(3, 4, 0.0, 1.0)
+    famb = [t for t in fam if _children_ok(t[1]) == (True, True)]
+    other = trees.tree_family(2, 3, 2.0, 4.0)
+    for t0 in fam[:14]:
+        for t1 in fam[:14]:
+            out.append({"config": {"kind": "objreuse", "balanced": False, "sequence": [list(t0), list(t1), list(t0)]}})
+        out.append({"config": {"kind": "objreuse", "balanced": False, "sequence": [list(t0), list(other[len(t0[0]) % len(other)]), list(t0)]}})
+    for t0 in famb[:8]:
+        for t1 in famb[:8]:
+            out.append({"config": {"kind": "objreuse", "balanced": True, "sequence": [list(t0), list(t1), list(t0)]}})
     # anisotropic 2D domains / one object, several intervals: same tree SHAPE on intervals of different length
     for (a, b) in (([0.0, 0.0], [1.0, 4.0]), ([-1.0, 2.0], [1.0, 3.0])):
         fam0 = trees.tree_family(2, 3, a[0], b[0])
@@ -274,7 +309,7 @@ def main(ctx):
         ctx.absorb(case, res, group=case["config"]["kind"])
     for i in (4, len(cs) // 3, len(cs) - 5):
         ctx.add_sample(cs[i])
-    ctx.bounds = {k: sum(1 for c in cs if c["config"]["kind"] == k) for k in ("ext", "balanced", "cache", "cache2d", "treeops")}
+    ctx.bounds = {k: sum(1 for c in cs if c["config"]["kind"] == k) for k in ("ext", "balanced", "cache", "cache2d", "objreuse", "treeops")}
     return ctx.finish(
         rule="ext: one refinement tree x interval, all 24 variants (3 groupings x 2 slice versions x 2 container versions x forced "
              "balancing) decided per case; balanced: every balanced tree; cache: every ordered pair of small trees through the "
